@@ -40,6 +40,27 @@ def _coroutine_of(fx, key):
     return None
 
 
+def _divisor_guarded(body, dg, b, t):
+    """the `divisor == 0` check of a division cannot fail here: the divisor is a non-zero constant, or a dominating branch tested it against zero"""
+    c = strip_casts(dg.expr(t[1]))
+    if c[0] == "un" and c[1] == "Not": c = strip_casts(c[2])
+    if c[0] != "bin" or c[1] != "Eq": return False
+    d = strip_casts(c[2]) if strip_casts(c[3]) == ("const", 0) else strip_casts(c[3]) if strip_casts(c[2]) == ("const", 0) else None
+    if d is None: return False
+    if d[0] == "const" and d[1] not in (0, "0"): return True
+    if d[0] == "gconst": return False
+    for gb in body.reachable:
+        cmp_ = D.cmp_of_switch(body, dg, gb)
+        if not cmp_: continue
+        op, x, y, tt, ft = cmp_
+        x, y = strip_casts(x), strip_casts(y)
+        nz = None                      # the edge on which d != 0 is known
+        if D.norm(x) == D.norm(d) and y == ("const", 0): nz = {"Ne": tt, "Gt": tt, "Eq": ft, "Le": ft}.get(op)
+        elif D.norm(y) == D.norm(d) and x == ("const", 0): nz = {"Ne": tt, "Lt": tt, "Eq": ft, "Ge": ft}.get(op)
+        if nz is not None and nz != (ft if nz == tt else tt) and body.dominates(nz, b): return True
+    return False
+
+
 def check(ctx):
     fx = ctx.fx
     import importlib
@@ -95,6 +116,25 @@ def check(ctx):
         dl = cc["dst"]["l"]
         aw = any(c2.get("fname") == "into_future" and any(op_local(a) == dl for a in c2["args"]) for (_, c2) in body.calls)
         ctx.ob("R12.1", f"{co}|callback-future-awaited", aw, body.loc(cb), "the future returned by the close callback is awaited")
+        # R12.7 nothing between the end of the stream loop and the close callback can kill the task: a panic there (end-of-stream logging / statistics) means the
+        # close callback -- and, through the latch, the Uni's -- never runs.  Flagged: divisions / remainders / indexings whose compiler-inserted check can fail
+        # (the divisor is not a non-zero constant) and explicit panics; checked additions / multiplications on the u32/u64 statistics are not (they need 2^32 events).
+        region = set()
+        for l in loops: region |= body.reach_from(l)
+        region &= {b for b in body.reachable if cb in body.reach_from(b) or b == cb}
+        bad = []
+        for b in sorted(region):
+            t = body.term(b)
+            if t[0] == "Assert" and str(t[3]) in ("DivisionByZero", "RemainderByZero", "BoundsCheck"):
+                if str(t[3]) != "BoundsCheck" and _divisor_guarded(body, dg, b, t): continue
+                bad.append((b, str(t[3])))
+        for b in body.diverging:
+            if b in body.reachable and any(b in body.reach_from(x) for x in loops) and body.term(b)[0] == "Call" and not body.blocks[b]["cleanup"]:
+                # an explicit panic!/unwrap()/expect() reached after the loop, on a path that would otherwise go on to the callback
+                if any(p_ in region for p_ in body.pred(b)) : bad.append((b, "panic"))
+        ctx.ob("R12.7", f"{co}|nothing-can-kill-the-task-between-the-last-item-and-the-close-callback", not bad, body.loc(bad[0][0]) if bad else site,
+               "no fallible division / indexing and no explicit panic between the stream loop and the close callback" if not bad else
+               f"{bad[0][1]} can abort the executor task after its last item and before the close callback ({len(bad)} site(s)): the callback would never run")
     # ------------------------------------------------------------------ R12.2 status machine
     k = EXE + "::register_execution_finish"
     body = Body(fx.fn(k)); dg = D.Dag(body)
